@@ -93,21 +93,26 @@ def fits (δ total cum : α) (cur c : Centroid α) : Bool :=
   let q1 := (cum + pw) / total
   decide (pw ≤ fmin (kSize δ q0) (kSize δ q1))
 
-/-- the loop of `compress` over the sorted centroids after the first; `clampMean` is what the
-    current code applies to a freshly merged mean (identity in `Legacy`) -/
-def compressLoopWith (clampMean : α → α) (δ total : α) : α → Centroid α → List (Centroid α) → List (Centroid α)
+/-- the loop of `compress` over the sorted centroids after the first; `bound cur c m` is what the code
+    applies to the freshly merged mean `m` of `cur` and `c` (identity in `Legacy`) -/
+def compressLoopWith (bound : Centroid α → Centroid α → α → α) (δ total : α) :
+    α → Centroid α → List (Centroid α) → List (Centroid α)
   | _, cur, [] => [cur]
   | cum, cur, c :: rest =>
     if fits δ total cum cur c then
       let m := mergeCentroid cur c
-      compressLoopWith clampMean δ total cum ⟨clampMean m.mean, m.weight⟩ rest
+      compressLoopWith bound δ total cum ⟨bound cur c m.mean, m.weight⟩ rest
     else
-      cur :: compressLoopWith clampMean δ total (cum + cur.weight) c rest
+      cur :: compressLoopWith bound δ total (cum + cur.weight) c rest
+
+/-- current code: `(…).max(current.mean).min(centroid.mean)` — a merged mean never passes either of the two
+    means it merges (so rounding / overflow cannot break the order of the centroids, nor leave `[min,max]`) -/
+def boundBetween (cur c : Centroid α) (m : α) : α := fmin (fmax m cur.mean) c.mean
 
 /-- the comparator of `sort_by(|a,b| a.mean.partial_cmp(&b.mean).unwrap_or(Equal))`: "not greater" -/
 def meanLe (a b : Centroid α) : Bool := !decide (b.mean < a.mean)
 
-/-- keep a merged mean inside `[min, max]` (rounding / overflow guard of the current code) -/
+/-- keep a merged mean inside `[min, max]` (the guard of `ad184d4`, replaced by `boundBetween`; see `Legacy.compressMinMax`) -/
 def clampOpt (mn mx : Option α) (x : α) : α :=
   match mn, mx with
   | some lo, some hi => clamp x lo hi
@@ -118,14 +123,23 @@ def TDigest.compress (d : TDigest α) : TDigest α :=
   match d.centroids.mergeSort meanLe with
   | [] => d
   | c :: rest =>
-    { d with centroids := compressLoopWith (clampOpt d.min d.max) d.compression d.total zero c rest }
+    { d with centroids := compressLoopWith boundBetween d.compression d.total zero c rest }
+
+/-- `insertByMean` on the reversed list: in front of the first (= after the last, in the original order)
+    centroid whose mean is `≤` the new one -/
+def insertRev (c : Centroid α) : List (Centroid α) → List (Centroid α)
+  | [] => [c]
+  | x :: xs => if x.mean ≤ c.mean then c :: x :: xs else x :: insertRev c xs
+
+/-- `let pos = centroids.iter().rposition(|c| c.mean <= value).map_or(0, |i| i + 1); centroids.insert(pos, new)` -/
+def insertByMean (c : Centroid α) (l : List (Centroid α)) : List (Centroid α) := (insertRev c l.reverse).reverse
 
 /-- `TDigest::add` (= `add_weighted(value, 1.0)`) -/
 def TDigest.add (d : TDigest α) (x : α) : TDigest α :=
   if !isFinite x then d else
   let d1 : TDigest α :=
     { d with min := ominV d.min x, max := omaxV d.max x,
-             centroids := d.centroids ++ [⟨x, one⟩], total := d.total + one }
+             centroids := insertByMean ⟨x, one⟩ d.centroids, total := d.total + one }
   if ofNat d1.centroids.length > d1.compression * two then d1.compress else d1
 
 /-- `TDigest::merge` -/
@@ -165,6 +179,28 @@ def TDigest.quantile (d : TDigest α) (q : α) : Option α :=
   | [], _, _ => none
   | c :: cs, some mn, some mx => some (quantileCoreWith (fun x => clamp x mn mx) d.total (c :: cs) mn mx q)
   | _ :: _, _, _ => none   -- unreachable: a digest with a centroid has seen a finite value
+
+/-- which branch of `quantile` answers `q`: the empty digest, the `min` / `max` short cuts, the `i`-th centroid
+    of the walk, or the fall-through after the loop. Same tests, same order, same arithmetic as
+    `quantileCoreWith` / `quantileLoopWith`; used to say WHERE an inversion of the estimate sits. -/
+inductive Cover where
+  | empty | min | max | at (i : Nat) | past
+  deriving DecidableEq, Repr
+
+def coverLoop (target : α) : α → Nat → List (Centroid α) → Cover
+  | _, _, [] => .past
+  | cum, i, c :: rest =>
+    let next := cum + c.weight
+    if next ≥ target then .at i else coverLoop target next (i + 1) rest
+
+def TDigest.cover (d : TDigest α) (q : α) : Cover :=
+  match d.centroids with
+  | [] => .empty
+  | c :: cs =>
+    let q := clamp q zero one
+    if abs (q - zero) ≤ eps || (c :: cs).length == 1 then .min
+    else if abs (q - one) ≤ eps then .max
+    else coverLoop (q * d.total) zero 0 (c :: cs)
 
 /-- `TDigest::quantiles` -/
 def TDigest.quantiles (d : TDigest α) (qs : List α) : List (Option α) := qs.map d.quantile
@@ -220,13 +256,23 @@ def MTree.eval (δ : α) : MTree α → TDigest α
   | .built xs => buildFromGroup δ xs
   | .node l r => (l.eval δ).merge (r.eval δ)
 
-/-! ## `Legacy`: the code before `fix: clamp …` (no clamp on merged means, none on the estimate) -/
+/-! ## `Legacy`: the code before the C15 fixes (`ad184d4`: no clamp on merged means, none on the estimate;
+    `673b7b5`: `add` appended, so the centroids were unsorted between two compressions) -/
 namespace Legacy
 
 def compress (d : TDigest α) : TDigest α :=
   match d.centroids.mergeSort meanLe with
   | [] => d
-  | c :: rest => { d with centroids := compressLoopWith id d.compression d.total zero c rest }
+  | c :: rest => { d with centroids := compressLoopWith (fun _ _ m => m) d.compression d.total zero c rest }
+
+/-- `compress` between `ad184d4` and `994fdb6`: the merged mean was clamped to `[min,max]` only. In exact
+    arithmetic indistinguishable from both neighbours (a weighted mean of two values lies between them); on `f64`
+    the merged mean of `0.1, 0.1, 0.1` is `0.10000000000000002` and lands BEFORE a following `0.1`, and near
+    `f64::MAX` the products overflow and the mean collapses to `min`/`max` (corpus of `harness/src/c15.rs`). -/
+def compressMinMax (d : TDigest α) : TDigest α :=
+  match d.centroids.mergeSort meanLe with
+  | [] => d
+  | c :: rest => { d with centroids := compressLoopWith (fun _ _ m => clampOpt d.min d.max m) d.compression d.total zero c rest }
 
 def add (d : TDigest α) (x : α) : TDigest α :=
   if !isFinite x then d else
